@@ -148,6 +148,11 @@ class Model:
                 for t in targets:
                     if isinstance(t, ast.Name):
                         mi.assigns.setdefault(t.id, []).append(st)
+                    elif isinstance(t, (ast.Tuple, ast.List)) and all(isinstance(x, ast.Name) for x in t.elts):
+                        # A, B = f(...): each name is bound to one element of the value
+                        st._unpack = {x.id: i for i, x in enumerate(t.elts)}
+                        for x in t.elts:
+                            mi.assigns.setdefault(x.id, []).append(st)
             elif cls is None and isinstance(st, ast.ImportFrom):
                 mod = ("." * st.level) + (st.module or "")
                 for a in st.names:
